@@ -22,6 +22,7 @@ import sympy as sp
 from engine import AnalysisError
 from engine.srcmodel import FunctionInfo, ClassInfo, walk_shallow, norm, dotted
 from engine.util import call_name, is_attr_of, contains, fstring_template
+from engine.inline import inlined
 
 BASE_REL = "pyrates/backend/base/base_backend.py"
 SOLVER_NAMES = ("_solve_euler", "_solve_heun")
@@ -50,6 +51,7 @@ class StepSummary:
     hist: dict = field(default_factory=dict)
     loop: Optional[ast.AST] = None
     update_stmt: Optional[ast.AST] = None
+    orig: Optional[FunctionInfo] = None     # the un-inlined method (s.f is the view with private helpers inlined)
 
 
 def backend_classes(ctx) -> List[ClassInfo]:
@@ -213,14 +215,19 @@ class _SymExec:
         return e
 
 
-def summarise(ctx, cls: ClassInfo, f: FunctionInfo) -> StepSummary:
+def _is_scan(n) -> bool:
+    return isinstance(n, ast.Call) and ((dotted(n.func) or "").endswith("lax.scan") or (dotted(n.func) or "") == "scan")
+
+
+def summarise(ctx, cls: ClassInfo, f0: FunctionInfo) -> StepSummary:
     borrowing = is_borrowing(ctx, cls)
-    solver = f.name
-    params = f.params
+    solver = f0.name
+    params = f0.params
     if "func" not in params:
-        raise AnalysisError(f"{f.qual}: callable parameter `func` vanished")
-    scans = [n for n in walk_shallow(f.node) if isinstance(n, ast.Call) and (dotted(n.func) or "").endswith("lax.scan")]
-    s = StepSummary(f=f, cls=cls, solver=solver, form="scan" if (scans or "inner_step" in f.nested) else "loop", borrowing=borrowing)
+        raise AnalysisError(f"{f0.qual}: callable parameter `func` vanished")
+    f = inlined(ctx, f0)             # private helpers (layout computation, scan scaffolding) spliced in
+    scans = [n for n in walk_shallow(f.node) if _is_scan(n)]
+    s = StepSummary(f=f, cls=cls, solver=solver, form="scan" if scans else "loop", borrowing=borrowing, orig=f0)
     # local straight-line definitions before the loop (store_steps etc.)
     pre: Dict[str, ast.AST] = {}
     for st in f.node.body:
@@ -411,10 +418,28 @@ def _mentions_ddehistory(test: ast.AST, pre) -> bool:
 
 def _summarise_scan(ctx, s: StepSummary, pre):
     f = s.f
-    inner = f.nested.get("inner_step")
-    outer = f.nested.get("outer_step")
-    if inner is None or outer is None:
-        raise AnalysisError(f"{f.qual}: scan form without inner_step/outer_step")
+
+    def deref(e):
+        for _ in range(6):
+            if isinstance(e, ast.Name) and e.id in pre and e.id not in f.nested:
+                e = pre[e.id]
+            else:
+                break
+        return e
+    top_scans = [n for n in walk_shallow(f.node) if _is_scan(n)]
+    if len(top_scans) != 1 or not top_scans[0].args:
+        raise AnalysisError(f"{f.qual}: expected exactly one top-level lax.scan call, found {len(top_scans)}")
+    o = deref(top_scans[0].args[0])
+    outer = f.nested.get(o.id) if isinstance(o, ast.Name) else None
+    if outer is None:
+        raise AnalysisError(f"{f.qual}: the function driven by the outer scan is not a nested def")
+    in_scans = [n for n in walk_shallow(outer.node) if _is_scan(n)]
+    if len(in_scans) != 1 or not in_scans[0].args:
+        raise AnalysisError(f"{outer.qual}: expected exactly one inner lax.scan call, found {len(in_scans)}")
+    i_ = deref(in_scans[0].args[0])
+    inner = f.nested.get(i_.id) if isinstance(i_, ast.Name) else None
+    if inner is None:
+        raise AnalysisError(f"{f.qual}: the step function driven by the inner scan is not a nested def")
     # inner_step(carry, _): t, y = carry ; ... ; return (t', y'), None
     body = inner.node.body
     se = _SymExec("func", ["args_t", "args"], s.borrowing)
@@ -423,12 +448,14 @@ def _summarise_scan(ctx, s: StepSummary, pre):
             and isinstance(unpack.value, ast.Name) and unpack.value.id == inner.params[0]):
         raise AnalysisError(f"{inner.qual}: unrecognised carry unpacking {norm(unpack)}")
     tname, yname = (e.id for e in unpack.targets[0].elts)
-    # increment must be 1
-    inc = pre.get("increment")
-    inc_is_one = isinstance(inc, ast.Call) and inc.args and isinstance(inc.args[0], ast.Constant) and inc.args[0].value == 1
+    # closure constants: names bound before the scan to (an array of) the literal 1
     se.env = {tname: TAU, yname: Y, "dt": DT}
-    if inc_is_one:
-        se.env["increment"] = sp.Integer(1)
+    for nm in pre:
+        v = deref(ast.Name(id=nm, ctx=ast.Load()))
+        while isinstance(v, ast.Call) and call_name(v) in ("asarray", "array", "int", "int32", "int64") and v.args:
+            v = v.args[0]
+        if isinstance(v, ast.Constant) and v.value == 1 and not isinstance(v.value, bool):
+            se.env[nm] = sp.Integer(1)
     se.env_naive = dict(se.env)
     ret = None
     for st in body[1:]:
@@ -461,7 +488,7 @@ def _summarise_scan(ctx, s: StepSummary, pre):
         r = oret[0].value
         store["emits_start_state"] = isinstance(r, ast.Tuple) and len(r.elts) == 2 and isinstance(r.elts[1], ast.Name) and r.elts[1].id == ys_name
         store["node"] = oret[0]
-        inner_scan = [n for n in ast.walk(outer.node) if isinstance(n, ast.Call) and (dotted(n.func) or "").endswith("lax.scan")]
+        inner_scan = in_scans
         if inner_scan:
             c = inner_scan[0]
             init = c.args[1] if len(c.args) > 1 else None
@@ -474,14 +501,14 @@ def _summarise_scan(ctx, s: StepSummary, pre):
                 end_names = [e.id for e in tgt[0].targets[0].elts[0].elts]
                 r0 = r.elts[0] if isinstance(r, ast.Tuple) else None
                 store["outer_carry_is_inner_end"] = isinstance(r0, ast.Tuple) and [getattr(e, "id", None) for e in r0.elts] == end_names
-    outer_scan = [n for n in walk_shallow(f.node) if isinstance(n, ast.Call) and (dotted(n.func) or "").endswith("lax.scan")]
+    outer_scan = top_scans
     if outer_scan:
         c = outer_scan[0]
         ln = [k.value for k in c.keywords if k.arg == "length"]
         if ln:
             s.rows_expr = rows_normal_form(ln[0], pre)
             s.rows_node = c
-        init = c.args[1] if len(c.args) > 1 else None
+        init = deref(c.args[1]) if len(c.args) > 1 else None
         if isinstance(init, ast.Tuple) and len(init.elts) == 2:
             def root(e):
                 seen = 0
